@@ -1193,7 +1193,7 @@ class Sym:
                 if k == "tuplestruct":
                     pairs = [(q, self.proj(t, ctor, i)) for i, q in enumerate(p["pats"])]
                 else:
-                    pairs = [(f["pat"], self.proj(t, ctor, f["name"])) for f in p["fields"]]
+                    pairs = [(f["pat"], self.proj(t, ctor, int(f["name"]) if f["name"].isdigit() else f["name"])) for f in p["fields"]]
                 out.extend(self.pm_all(pairs, s))
             return out
         if k == "expr":
